@@ -23,6 +23,7 @@ import (
 	"sync"
 
 	"google.golang.org/grpc"
+	"google.golang.org/grpc/status"
 )
 
 type key int
@@ -119,9 +120,27 @@ func (cs *gcpClientStream) SendMsg(m interface{}) error {
 
 func (cs *gcpClientStream) RecvMsg(m interface{}) error {
 	// If RecvMsg is called before SendMsg, it should wait until cs.ClientStream
-	// is initialized or the initialization failed.
+	// is initialized or the initialization failed or the context is done.
 	cs.Lock()
+	if cs.initStreamErr == nil && cs.ClientStream == nil {
+		// Wake up the waiting loop below when the context is done.
+		stop := make(chan struct{})
+		defer close(stop)
+		go func() {
+			select {
+			case <-cs.ctx.Done():
+				cs.Lock()
+				cs.Unlock()
+				cs.cond.Broadcast()
+			case <-stop:
+			}
+		}()
+	}
 	for cs.initStreamErr == nil && cs.ClientStream == nil {
+		if err := cs.ctx.Err(); err != nil {
+			cs.Unlock()
+			return status.FromContextError(err).Err()
+		}
 		cs.cond.Wait()
 	}
 	if cs.initStreamErr != nil {
